@@ -45,15 +45,26 @@ macro_rules! dim {
                 c.push_r(&[gen::nz_rat(rng, tier)]);
                 // centroid list
                 // every non-empty list length: mostly short, sometimes long (odd and even, beyond any block size)
-                let k = match rng.below(10) {
-                    0..=5 => rng.range(1, 9),
-                    6..=8 => rng.range(10, 40),
-                    _ => rng.range(41, 130),
+                let k = match rng.below(20) {
+                    0..=11 => rng.range(1, 9),
+                    12..=16 => rng.range(10, 40),
+                    17 | 18 => rng.range(41, 130),
+                    _ => rng.pick(&[255i64, 256, 257, 300, 513]),
                 };
                 c.push_k(&[k]);
-                for _ in 0..k {
+                let mut first: Vec<cgv_core::sc::Rat> = vec![];
+                // one list in five is "closed": its last point repeats its first (a polygon ring)
+                let ring = k >= 2 && rng.chance(1, 5);
+                for j in 0..k {
                     let (v, _) = gen::rats(rng, tier, N);
-                    c.push_r(&v);
+                    if j == 0 {
+                        first = v.clone();
+                    }
+                    if ring && j == k - 1 {
+                        c.push_r(&first);
+                    } else {
+                        c.push_r(&v);
+                    }
                 }
                 c.nontrivial = nt;
                 c
@@ -444,5 +455,5 @@ pub fn clauses() -> Vec<Clause> {
     ]
 }
 
-pub const RULE: &str = "two points, two vectors with non-zero components and a non-zero scalar of small rationals per dimension 1-3, plus a list of 1-130 points for the centroid (60% 1-9, 30% 10-40, 10% 41-130); homogeneous: a point and a non-zero factor k. Non-trivial = points with non-zero pairwise distinct components; distinct = distinct input tuples. Native part: Point3/2/1 over i8,u8,i32,u32,i64 for the additive laws, operands placed so that the i128 model proves no overflow.";
+pub const RULE: &str = "two points, two vectors with non-zero components and a non-zero scalar of small rationals per dimension 1-3, plus a list of 1-513 points for the centroid (60% 1-9, 25% 10-40, 10% 41-130, 5% 255/256/257/300/513; one list in five closed: last point = first); homogeneous: a point and a non-zero factor k. Non-trivial = points with non-zero pairwise distinct components; distinct = distinct input tuples. Native part: Point3/2/1 over i8,u8,i32,u32,i64 for the additive laws, operands placed so that the i128 model proves no overflow.";
 pub const ASSUME: &[&str] = &["exact rational arithmetic in i128", "integer scalars: only the additive laws, only on overflow-free operands"];
